@@ -63,6 +63,8 @@ def norm(t, mapped=False, d=0):
         return norm(t[1], mapped, d + 1)
     if k == "opaque":
         return "f(%s)" % t[1] if mapped else str(t[1])
+    if k == "const":
+        return str(t[1])
     if k == "adt":
         if t[2] == "Rect" and len(t[3]) == 2:
             # Rect::new re-sorts the two corners per axis: compared per axis as a set
